@@ -171,7 +171,13 @@ class Zone(dns.zone.Zone):  # lgtm[py/missing-equals]
             #
             event.wait()
         # Do the deferred version setup.
-        self._write_txn._setup_version()
+        try:
+            self._write_txn._setup_version()
+        except BaseException:
+            # Never keep the write slot if setup fails, or every later
+            # writer would wait forever.
+            self._end_write(self._write_txn)
+            raise
         return self._write_txn
 
     def _maybe_wakeup_one_waiter_unlocked(self):
